@@ -25,6 +25,7 @@ type G struct {
 	w     *World
 	spawn int
 	id    int64
+	seq   map[string]int // per-goroutine sequence numbers (GSeq)
 }
 
 // Node is one simulated OS process.
@@ -341,6 +342,25 @@ func (w *World) Counter(key string) int {
 	defer w.mu.Unlock()
 	w.counters[key]++
 	return w.counters[key]
+}
+
+// GSeq returns a stable identifier for "the n-th <what> done by the calling
+// goroutine": goroutine names are stable (parent/index), and one goroutine's own
+// sequence of actions is deterministic, whereas a counter shared by several
+// goroutines of a node is handed out in scheduler order when they run inside the
+// same quiescent step.
+func (w *World) GSeq(g *G, what string) string {
+	if g == nil {
+		return fmt.Sprintf("ext.%d", w.Counter("gseq:"+what))
+	}
+	gmu.Lock()
+	if g.seq == nil {
+		g.seq = map[string]int{}
+	}
+	g.seq[what]++
+	n := g.seq[what]
+	gmu.Unlock()
+	return fmt.Sprintf("%s.%d", g.Name, n)
 }
 
 // Post schedules fn at absolute simulated time at (>= now). Key must be stable.
